@@ -113,6 +113,12 @@ func (fct *FailOverClientTransport) Send(msg *Message) error {
 		if err == nil {
 			return nil
 		}
+		if fct.secondary == nil {
+			// nothing to fall back to (a datagram socket): keep the primary, the next
+			// message may well get through. Dropping it would lose every later message
+			// to this destination because of one failed send
+			return err
+		}
 		fct.primary = nil
 	}
 	if fct.secondary != nil {
